@@ -52,15 +52,21 @@ def compare(acc, stmts, r, nvar, origin):
         rc, out, err = comp.compile_text(base, sh)
         acc.evals += 1
         if rc != 0:
-            acc.count('base_not_accepted')
-            return
-        ref[sh] = out
+            acc.count('base_rejected_for_' + sh)
+        ref[sh] = out if rc == 0 else None
     for v in range(nvar):
         text = relayout(stmts, r)
         for sh in common.SHELLS:
             rc, out, err = comp.compile_text(text, sh)
             acc.evals += 1
             acc.count('variant_compilations')
+            if ref[sh] is None:
+                # a file complgen rejects: every re-layout of it must be rejected too (no script either way)
+                if rc == 0:
+                    acc.violation({'sig': 'relayout-accepted-a-rejected-grammar', 'shell': sh, 'grammar': base,
+                                   'variant': text, 'origin': origin})
+                    return
+                continue
             if rc != 0 or out != ref[sh]:
                 from .c15 import first_diff
                 acc.violation({'sig': 'relayout-changes-output' if rc == 0 else 'relayout-rejected',
@@ -164,6 +170,22 @@ def run_job(job, acc):
     for i in range(n):
         stmts = repeated_references_grammar(r) if i % 4 == 3 else \
             (common.dag_grammar(r) if i % 4 == 1 else c02.random_grammar(r))
+        if i % 4 == 2 and s % 2 == 0:
+            # a grammar with one planted mistake: rejected in every layout
+            from . import c08
+            if r.random() < 0.5:
+                _, stmts, _ = c08.plant(r, c08.base_grammar(r), r.choice(common.SHELLS))
+            else:
+                # a shell-specific command definition next to a plain definition that is no command: whatever
+                # complgen makes of it for each target shell, it must not depend on which of the two comes first
+                from ..gast import lit, nt, cmd, seq, alt, call, defn
+                stmts = [call('cmd', seq(lit('go'), nt('X'), lit('end'))), defn('X', None, alt(lit('foo'), lit('bar')))]
+                for sh in r.sample(common.SHELLS, r.randint(1, 3)):
+                    stmts.append(defn('X', sh, cmd('echo a_%s' % sh)))
+                if r.random() < 0.5:
+                    stmts.append(defn('Y', None, lit('y')))
+                    stmts[0] = call('cmd', seq(lit('go'), nt('X'), nt('Y')))
+                r.shuffle(stmts)
         compare(acc, stmts, r, nvar, 'seed=%d #%d' % (s, i))
 
 
